@@ -241,6 +241,7 @@ impl TransportFn<()> for RawRun {
 pub fn raw_run() {
     let tk = [TKind::Model, TKind::ModelLegacy, TKind::MmioModern, TKind::MmioLegacy, TKind::Pci, TKind::ModelPciLike][choose(6) as usize];
     crate::scen::queue::draw_device_policy();
+    crate::scen::queue::draw_sharing_mode();
     let mut feats = F_VERSION_1 * choose(2) | F_INDIRECT * choose(2) | F_EVENT_IDX * choose(2) | F_ACCESS_PLATFORM * choose(2) | (1 << 5) | (1 << 16) | (choose(2) << 15);
     if tk.legacy() {
         feats &= !F_VERSION_1;
@@ -373,6 +374,7 @@ impl TransportFn<()> for BufRun {
 pub fn buf_run() {
     let tk = [TKind::Model, TKind::ModelLegacy, TKind::MmioModern, TKind::MmioLegacy, TKind::Pci, TKind::ModelPciLike][choose(6) as usize];
     crate::scen::queue::draw_device_policy();
+    crate::scen::queue::draw_sharing_mode();
     let mut feats = F_VERSION_1 * choose(2) | F_INDIRECT * choose(2) | F_EVENT_IDX * choose(2) | F_ACCESS_PLATFORM * choose(2) | (1 << 5) | (1 << 16);
     if tk.legacy() {
         feats &= !F_VERSION_1;
